@@ -375,6 +375,19 @@ where
         witness.set_cap_target(quotient_polys_cap_target, quotient_polys_cap)?;
     }
 
+    // The openings are assigned through their flattened FRI batches, which only pin the total number of values:
+    // compare each opening vector with its targets.
+    let (ot, o) = (&proof_target.openings, &proof.openings);
+    ensure!(
+        ot.local_values.len() == o.local_values.len()
+            && ot.next_values.len() == o.next_values.len()
+            && ot.auxiliary_polys.as_ref().map(|v| v.len()) == o.auxiliary_polys.as_ref().map(|v| v.len())
+            && ot.auxiliary_polys_next.as_ref().map(|v| v.len())
+                == o.auxiliary_polys_next.as_ref().map(|v| v.len())
+            && ot.ctl_zs_first.as_ref().map(|v| v.len()) == o.ctl_zs_first.as_ref().map(|v| v.len())
+            && ot.quotient_polys.as_ref().map(|v| v.len()) == o.quotient_polys.as_ref().map(|v| v.len()),
+        "The openings of the proof do not have the shape of their targets."
+    );
     witness.set_fri_openings(
         &proof_target.openings.to_fri_openings(zero),
         &proof.openings.to_fri_openings(),
